@@ -195,6 +195,7 @@ End Columns.
    The column view above ([colcells], [col_slice]) cannot see zero-width
    characters: they occupy no column.  This part says, for every CHARACTER of the
    line (zero-width ones included), whether the slice of columns a .. b-1 holds it.
+   It is a function of the cells alone: the run layout plays no part.
    List functions only; nothing here refers to the model. *)
 Section SliceRef.
 Variable wc : char -> Z.
@@ -205,9 +206,6 @@ Fixpoint positions (p : Z) (cs : list cell) : list (Z * cell) :=
   | [] => []
   | x :: r => (p, x) :: positions (p + wc (fst x)) r
   end.
-
-Fixpoint width_of (cs : list cell) : Z :=
-  match cs with [] => 0 | x :: r => wc (fst x) + width_of r end.
 
 Definition in_range (a b p : Z) : bool := (a <=? p) && (p <? b).
 
@@ -228,62 +226,17 @@ Definition keep_char (a b : Z) (sx : Z * cell) : list cell :=
   else if (w =? 2) && xorb (in_range a b s) (in_range a b (s + 1)) then [(32%N, snd x)]
   else [].
 
-(* THE REFERENCE (independent of the run layout): the cells of columns a .. b-1 of
-   a line whose first character starts at column p *)
+(* THE REFERENCE: the cells of columns a .. b-1 of a line whose first character
+   starts at column p *)
 Definition slice_ref_from (p a b : Z) (cs : list cell) : list cell :=
   flat_map (keep_char a b) (positions p cs).
 Definition slice_ref (a b : Z) (cs : list cell) : list cell := slice_ref_from 0 a b cs.
 
-(* the zero-width characters sitting strictly inside the range, a < column < b *)
-Definition inner_mark (a b : Z) (sx : Z * cell) : bool :=
-  zero_width wc (snd sx) && (a <? fst sx) && (fst sx <? b).
-Definition inner_marks_from (p a b : Z) (cs : list cell) : list cell :=
-  map snd (filter (inner_mark a b) (positions p cs)).
-Definition inner_marks (a b : Z) (cs : list cell) : list cell := inner_marks_from 0 a b cs.
-
-(* The code under study does not cut a line but a sequence of RUNS, and what it
-   does with the zero-width characters that stand at the very beginning of a run
-   (before the run's first character of positive width: the run's "leading marks",
-   all at the run's first column K) depends on the run, not on the column alone.
-   [slice_ref_runs] is the reference with that dependence made explicit: every
-   character other than a leading mark is judged by [keep_char]; the leading marks
-   of a run starting at column K and ending at column E are kept together,
-     - run of width 0 (marks only):  iff a < K < b      ([keep_char]: a < K <= b)
-     - run of positive width:        iff a <= K and E <= b, i.e. the whole run lies
-                                     inside the range   ([keep_char]: a < K <= b). *)
-Fixpoint span_marks (cs : list cell) : list cell * list cell :=
-  match cs with
-  | [] => ([], [])
-  | x :: r => if zero_width wc x then (x :: fst (span_marks r), snd (span_marks r)) else ([], cs)
-  end.
-
-Definition lead_kept (a b K : Z) (body : list cell) : bool :=
-  match body with
-  | [] => (a <? K) && (K <? b)
-  | _ => (a <=? K) && (K + width_of body <=? b)
-  end.
-
-Definition run_ref (a b K : Z) (ch : chunk) : list cell :=
-  let lead := fst (span_marks (chunk_cells ch)) in
-  let body := snd (span_marks (chunk_cells ch)) in
-  (if lead_kept a b K body then lead else []) ++ slice_ref_from K a b body.
-
-Fixpoint slice_ref_runs_from (K a b : Z) (f : fmtstr) : list cell :=
-  match f with
-  | [] => []
-  | ch :: r => run_ref a b K ch ++ slice_ref_runs_from (K + width_of (chunk_cells ch)) a b r
-  end.
-Definition slice_ref_runs (a b : Z) (f : fmtstr) : list cell := slice_ref_runs_from 0 a b f.
-
-(* layouts on which the two references coincide: no run begins with a zero-width
-   character ... *)
-Definition starts_with_mark (ch : chunk) : bool :=
-  match chunk_cells ch with [] => false | x :: _ => zero_width wc x end.
-Definition no_leading_marks (f : fmtstr) : bool := forallb (fun ch => negb (starts_with_mark ch)) f.
-(* ... and the weaker condition under which every inner mark is kept: a run that
-   begins with a zero-width character consists of zero-width characters only
-   (an accent formatted differently from its base letter) *)
-Definition marks_lead_only_mark_runs (f : fmtstr) : bool :=
-  forallb (fun ch => negb (starts_with_mark ch) || forallb (zero_width wc) (chunk_cells ch)) f.
+(* the zero-width characters that belong to the range: a < column <= b *)
+Definition mark_in_range (a b : Z) (sx : Z * cell) : bool :=
+  zero_width wc (snd sx) && (a <? fst sx) && (fst sx <=? b).
+Definition marks_in_range_from (p a b : Z) (cs : list cell) : list cell :=
+  map snd (filter (mark_in_range a b) (positions p cs)).
+Definition marks_in_range (a b : Z) (cs : list cell) : list cell := marks_in_range_from 0 a b cs.
 
 End SliceRef.
